@@ -20,7 +20,10 @@
 (* position between two deliveries of every interleaving is a crash point.   *)
 (*                                                                           *)
 (* Deviations (m.cfg.dev).  Absent = the design that satisfies the contract. *)
-(*  "truncate_bound_read_after_delay"  (what the code does) _flush_memtable  *)
+(*  (Repository state: the three "what the code did" deviations below were   *)
+(*  real defects, repaired in /repo by ea0d52f, 0423f12, 5d617c0; the        *)
+(*  harness switches a deviation on only while known_findings lists it open.)*)
+(*  "truncate_bound_read_after_delay"  (what the code did) _flush_memtable   *)
 (*     truncates the log up to next_sequence-1 read AFTER the SSTable write  *)
 (*     delay: entries appended meanwhile (their data is in the NEW memtable  *)
 (*     or still on its way to it) are dropped from the log.                  *)
@@ -30,7 +33,7 @@
 (*     in the new memtable and are still truncated.                          *)
 (*     Design (Dev = {}): bound = (lowest in-flight sequence) - 1 at         *)
 (*     rotation, next_sequence-1 if nothing is in flight.                    *)
-(*  "compaction_concurrent_install"  (what the code does, shared with C14)   *)
+(*  "compaction_concurrent_install"  (what the code did, shared with C14)    *)
 (*     _compact is not serialised: a second _compact may start (from another *)
 (*     writer's flush install) while one is waiting for its write latency.   *)
 (*     Both select overlapping inputs; at install time the overlap set       *)
@@ -44,7 +47,7 @@
 (*     is readable again (with or without a crash).  Design: one compaction  *)
 (*     at a time (a _compact that finds one in flight returns), overlapping  *)
 (*     tables filled in newest first.                                        *)
-(*  "flush_clears_before_install"  (what the code does, shared with C14)     *)
+(*  "flush_clears_before_install"  (what the code did, shared with C14)      *)
 (*     Memtable.flush() empties the rotated memtable at flush start.         *)
 (*     Harmless for C15 (crash() drops immutable memtables anyway).          *)
 (*  "crash_drops_synced_tail"  crash keeps seq < synced_up_to.               *)
@@ -190,11 +193,6 @@ AfterWrite(mm, w) == IF ShouldSync(mm) THEN Yield(mm, w, "sy", mm.cfg.SL) ELSE M
 Synced(mm, w) ==
     MemPut([mm EXCEPT !.synced = mm.cl[w].seq, !.dur = Max2(@, mm.cl[w].seq), !.wss = 0, !.age = 0], w)
 
-MemSizeOf(mm, mid) ==
-    IF mid = mm.memid THEN Size(mm.mem)
-    ELSE LET I == { i \in 1..Len(mm.imm) : mm.imm[i].id = mid }
-         IN IF I = {} THEN 0 ELSE Size(mm.imm[CHOOSE i \in I : TRUE].d)
-
 \* _compact(): select, merge, and (if there is output) wait for the write latency
 CompactStart(mm, w) ==
     LET cfg == mm.cfg
@@ -243,9 +241,12 @@ FlushInstall(mm, w) ==
                          !.ent = Truncate(@, bound)]
     IN IF ShouldCompact(m1.cfg, m1.lv) THEN CompactStart(m1, w) ELSE Ret(m1, w)
 
-\* after Memtable.put's latency: `return self.is_full` of the captured memtable, flush if full
+\* after Memtable.put's latency: `return self.is_full` of the captured memtable; a flush is started only
+\* if that memtable is still the active one (`is_full and memtable is self._memtable`).  The code before
+\* 5d617c0 had no identity test but emptied the rotated memtable at flush start, so a rotated memtable was
+\* never full either: the same rule describes both.
 MemPutDone(mm, w) ==
-    IF MemSizeOf(mm, mm.cl[w].mid) >= mm.cfg.memsize THEN FlushStart(mm, w) ELSE Ret(mm, w)
+    IF mm.cl[w].mid = mm.memid /\ Size(mm.mem) >= mm.cfg.memsize THEN FlushStart(mm, w) ELSE Ret(mm, w)
 
 \* the segment run by the head delivery (pc "gap" needs the operation, see Begin)
 Seg(mm, w) ==
